@@ -155,7 +155,6 @@ fn image<C: Cm>(case: &ImgCase) -> PResult {
         Some(s) => {
             ensure!(*s == owned && owned == *s, format!("from_raw_roundtrip/{n_}"), "from_raw(len, into_raw()) != self for a sequence produced by `{kind}`: {} vs {}", s, owned);
             check_symbols(&sy, s, codes, &format!("from_raw_roundtrip/{n_}"))?;
-            check_same_hash(s, &owned, &format!("from_raw_roundtrip/{n_}"), "rebuilt vs original")?;
         }
         None => fail!(format!("from_raw_roundtrip_none/{n_}"), "from_raw({n}, into_raw()) returned None for a sequence produced by `{kind}` ({} words)", raw.len()),
     }
